@@ -344,7 +344,7 @@ def vjoin(a, b, cd, widen=False):
 
 
 class State:
-    __slots__ = ("frames", "pc", "refined", "corr", "dead", "afacts")
+    __slots__ = ("frames", "pc", "refined", "corr", "dead", "afacts", "rel")
 
     def __init__(self):
         self.frames = []  # list of dict local -> V
@@ -355,6 +355,8 @@ class State:
         # facts about linear forms of the (immutable) input atoms established by branch conditions on this path:
         # key of the exact affine form -> (lo, hi) of its mathematical value
         self.afacts = {}
+        # relational facts between two linear forms of the inputs established by branches: ("lt"|"le", key_x, key_y)
+        self.rel = frozenset()
 
     def copy(self):
         s = State()
@@ -363,6 +365,7 @@ class State:
         s.refined = dict(self.refined)
         s.corr = self.corr
         s.afacts = dict(self.afacts)
+        s.rel = self.rel
         return s
 
 
@@ -471,6 +474,7 @@ class Interp:
         self.cfgs = {}
         self.unknown_calls = set()
         self.div_vids = set()
+        self.div_notes = {}  # vid of a quotient -> ("nonstrict", K, X, V): a guard established only X <= V
         self.record_arith = False
         self.cur_line = 0
         # upstream guarantees about values that enter from the assembler's context (checked by C12.R6)
@@ -851,7 +855,33 @@ class Interp:
             if op == "Rem" and b.lo > 0 and a.lo >= 0:
                 return IntV(ty, bits_dep_all(w, d), 0, min(a.hi, b.hi - 1), None, False, lin)
             if op == "Div" and a.lo >= 0 and b.lo > 0:
-                return IntV(ty, bits_dep_all(w, d), a.lo // b.hi, a.hi // b.lo, None, False, lin)
+                qlo, qhi = a.lo // b.hi, a.hi // b.lo
+                note = None
+                # lemma: dividend = K*X + Y with 0 <= Y < K and X < V (= divisor >= 1)  =>  quotient < K
+                if a.aff is not None and b.aff is not None and a.aff.c >= 0 and a.aff.terms and st is not None:
+                    top = max(a.aff.terms, key=lambda t: t[1])
+                    K = top[1]
+                    rest_hi = a.aff.c
+                    ok_rest = K > 1
+                    for base, k in a.aff.terms:
+                        if (base, k) == top:
+                            continue
+                        at = self.atoms.get(base) if isinstance(base, str) else None
+                        if k <= 0 or at is None or at[1] < 0:
+                            ok_rest = False
+                            break
+                        rest_hi += k * at[2]
+                    at = self.atoms.get(top[0]) if isinstance(top[0], str) else None
+                    if ok_rest and rest_hi <= K - 1 and at is not None and at[1] >= 0:
+                        kx, kv = Lin.atom(top[0]).key(), b.aff.key()
+                        if ("lt", kx, kv) in st.rel:
+                            qhi = min(qhi, K - 1)
+                        elif ("le", kx, kv) in st.rel:
+                            note = ("nonstrict", K, top[0], b.aff.pretty())
+                rq = IntV(ty, bits_dep_all(w, d), qlo, qhi, None, False, lin)
+                if note:
+                    self.div_notes[rq.vid] = note
+                return rq
             if op == "Div" and b.is_const() and b.lo != 0:
                 c = [int(a.lo / b.lo), int(a.hi / b.lo)]
                 return IntV(ty, bits_dep_all(w, d), min(c), max(c), None, False, lin)
@@ -1187,6 +1217,11 @@ class Interp:
             r = True
         if r and rel:
             st.corr = st.corr | {frozenset((x.vid, y.vid))}
+            if x.aff is not None and y.aff is not None:
+                fact = {"Lt": ("lt", x.aff.key(), y.aff.key()), "Le": ("le", x.aff.key(), y.aff.key()),
+                        "Gt": ("lt", y.aff.key(), x.aff.key()), "Ge": ("le", y.aff.key(), x.aff.key())}.get(op)
+                if fact:
+                    st.rel = st.rel | {fact}
         return r
 
     # -- running a function -------------------------------------------------------------------
@@ -1221,6 +1256,7 @@ class Interp:
             s.refined[k] = a.refined.get(k, frozenset()) | b.refined.get(k, frozenset())
         s.corr = a.corr | b.corr
         s.afacts = {k: (min(v[0], b.afacts[k][0]), max(v[1], b.afacts[k][1])) for k, v in a.afacts.items() if k in b.afacts}
+        s.rel = a.rel & b.rel
         return s
 
     def states_equal(self, a, b):
